@@ -1,6 +1,8 @@
 package prefilter
 
 import (
+	"bytes"
+
 	"github.com/coregx/ahocorasick"
 	"github.com/coregx/coregex/literal"
 )
@@ -33,6 +35,9 @@ func newACPrefilter(seq *literal.Seq) Prefilter {
 			minLen = len(patterns[i])
 		}
 	}
+	if !SubstringFree(patterns) {
+		return nil
+	}
 
 	ac, err := ahocorasick.NewBuilder().
 		AddPatterns(patterns).
@@ -47,6 +52,24 @@ func newACPrefilter(seq *literal.Seq) Prefilter {
 		complete: seq.AllComplete(),
 		minLen:   minLen,
 	}
+}
+
+// SubstringFree reports whether no pattern occurs inside another pattern.
+//
+// The Aho-Corasick automaton reports the match that ENDS first. That is the
+// leftmost (and, at one start, the only) match exactly when the set is
+// substring-free: "abcd|bc" on "abcd" would otherwise report "bc", and
+// "tdzou|tdz" on "tdzou" would report "tdz". Callers that need leftmost-first
+// results must not use the automaton for other sets.
+func SubstringFree(patterns [][]byte) bool {
+	for i, a := range patterns {
+		for j, b := range patterns {
+			if i != j && len(a) <= len(b) && bytes.Contains(b, a) {
+				return false
+			}
+		}
+	}
+	return true
 }
 
 // Find returns the position of the first matching literal at or after start.
